@@ -9,6 +9,8 @@ CHECKS = {
  "C03": ("model_checking", "Complete BFS (fine/coarse decomposition) and deviation-bounded search of two real wormholes against the real mailbox-server logic; prefix/equality oracle on every state and every quiescent state.", "bounds: <=3+2 messages, <=2 drops per side, <=2 reorders, <=2 duplicates; environment models in DESIGN.md section 3", TECH),
  "C08": ("model_checking", "close() issued at every reachable state of the composed client (all three code flows, both API styles, peer absent / same code / wrong code, server error and welcome-error replies, connection drops): exactly-once closed notification, verdict against a ghost first-cause ledger, server tables (claims, open mailbox sides, recorded moods) inspected at the moment of the notification.", "bounds: <=2 drops on the fine side, <=1 injected server error; verdict oracle is exact for matching codes and a permitted set for differing codes", TECH),
  "C09": ("model_checking", "Connection drops at every protocol step (in-flight commands and responses lost) for set/set, allocate/set and allocate/input flows; quiescent-state oracle requires every application event exactly once and all messages delivered; every server connection must start with bind.", "bounds: complete BFS with <=1 (thorough 2) drop on the fine side, deviation-bounded with <=2 (3) drops per side", TECH),
+ "C18": ("model_checking", "Event-order monitor (code <= key <= verifier <= versions/messages <= closed, once each, verifier before data, versions before messages on an order-preserving server) on every state of BFS / deviation-bounded explorations with close(), drops, reordering, duplication, explored eventual-queue turns, and explicit get_*() calls issued before and after the events and after closed.", "bounds as in the evidence file; get_*() timing explored for <=3 calls per thread", TECH),
+ "C14": ("model_checking", "Composed client (13 machines) explored under the widest conformant-server environment: all code flows and API styles, reordered/duplicated delivery, injected error replies, welcome error/motd, a scripted third participant (polite, PAKE-less, other-password, malformed PAKE), drops and initial connection failure; any escaped exception, log.err or undocumented close verdict is a violation; reached Automat (machine,state,input) pairs are reported against those declared.", "legal use = no code-entry call after the application called close() or was told the wormhole is over; dilation not enabled in these scenarios", TECH),
 }
 NA = {}
 props = [json.loads(l)["id"] for l in open(os.path.join(HERE, "properties.jsonl"))]
